@@ -158,7 +158,7 @@ class C28(Check):
                 taken = b"".join(self.accepted) + (dev.current_transmit or b"" if (dev.current_transmit is not None and (bool(data[o] & 1) != twin.tacc)) else b"")
                 d = [bool(dev.connected), bool(getattr(dev, "last_transmit_accept", False)), bool(getattr(dev, "last_receive_request", False)),
                      bool(dev.last_receive_accept), bool(dev.last_transmit_request),
-                     None if dev.current_transmit is None else bytes(dev.current_transmit),
+                     None if dev.current_transmit is None else bytes(bytearray(dev.current_transmit)),      # a COPY: the harness must not keep the device's own objects alive
                      bool(data[o] & 1), bool(data[o] & 2), bool(data[o] & 4), bytes(data[o + 2:o + 2 + data[o + 1]])]
                 t = [twin.phase, twin.tacc, twin.rreq, twin.iacc, twin.str]
                 self.trace.append([d, t, self.pipe[len(taken):], list(self.accepted), list(self.delivered)])
